@@ -36,6 +36,17 @@
      JobDelete      meta.RemoveBlobs(small metas)
      Crash          the process dies: heap, jobs and the call in flight are gone; the local index survives
                     or is lost (wiped)
+     transient failures of a lower-layer call (at most MaxFault of them; the process goes on).  `eff`: the call
+     took effect although it reported an error.  What the code does today:
+       RecvStartErr(p)      the duplicate check's index.Get fails: the blob is taken for a new one
+       RecvBlobFail(eff)    blobs.ReceiveBlob fails: ReceiveBlob returns the error (eff: an orphan ciphertext stays)
+       RecvMetaFail(eff)    meta.ReceiveBlob of the one-entry meta blob fails: ReceiveBlob returns the error BEFORE
+                            recordMeta (eff: the meta blob is stored but not tracked until the next start-up)
+       RecvIndexFail(eff)   index.Set fails: ReceiveBlob returns the error, not acknowledged; ciphertext and meta blob
+                            stay, the meta blob is tracked (a job that packs it finds no row and gives up)
+       JobGetFail(j)        an index.Get of the job fails: the job gives up, every small meta blob stays (untracked)
+       JobUploadFail(j,eff) the packed meta's ReceiveBlob fails: the job gives up, nothing is deleted, nothing recorded
+       JobDeleteFail(j,D)   RemoveBlobs fails having removed D (nothing / some / all of them): the job ends
      RestartBegin / ScanOne(m) / RestartEnd    start-up scan of all meta blobs
      Tamper / TamperedRestart / Restore        an attacker with write access to the wrapped stores
                     damages (flip, truncate, extend) or substitutes (swap with another blob of the same
@@ -51,6 +62,8 @@
                               is deleted by a job whose packed blob does not hold its entries
      "IndexBeforeMeta"        ReceiveBlob sets the index row before the meta blob is stored
      "NoDigestCheck"          Fetch does not compare the fetched ciphertext with the ref in the index row
+     "CompactionSkipsFailedEntry" a job whose index.Get of an entry fails (error or no row) leaves that entry out,
+                              uploads the packed meta blob without it and deletes ALL the small meta blobs
      "MetaShapedBlobAccepted" no domain separation between blob and meta ciphertexts: a user blob whose
                               PLAINTEXT is a well-formed meta file is accepted as a meta blob when its
                               ciphertext is found in the meta store *)
@@ -64,6 +77,7 @@ CONSTANTS Plain,        \* plaintext blobs (positive naturals: ranks)
           MaxId,        \* bound on fresh object ids
           MaxJobs,      \* bound on concurrently running compaction goroutines
           MaxCrash,     \* bound on the number of crashes explored
+          MaxFault,     \* bound on the number of transient lower-layer failures explored
           Forge,        \* SUBSET Plain: blobs whose plaintext is a well-formed meta file (crafted by an attacker)
           TamperOn,     \* BOOLEAN: explore the tamper actions
           Deviations
@@ -80,9 +94,10 @@ VARIABLES enc,      \* objects in `blobs`: set of [id, p]           (name = id, 
           nextId,
           tam,      \* the tampering in force
           fents,    \* what the crafted blobs say: set of [f, p, c]
-          ncrash
+          ncrash,
+          nfault    \* transient lower-layer failures so far
 
-evars == <<enc, metas, heap, index, acked, recv, jobs, mode, todo, nextId, tam, fents, ncrash>>
+evars == <<enc, metas, heap, index, acked, recv, jobs, mode, todo, nextId, tam, fents, ncrash, nfault>>
 
 NoRecv == [p |-> 0, pc |-> "idle", c |-> 0]
 NoTam == [target |-> "none", kind |-> "none", a |-> 0, b |-> 0]
@@ -139,7 +154,7 @@ Record(h, js, m) == \E o \in RecordOutcomes(h, js, m) :
                       Cardinality(o.jobs) <= MaxJobs /\ heap' = o.heap /\ jobs' = o.jobs
 
 EInit == /\ enc = {} /\ metas = {} /\ heap = {} /\ index = {} /\ acked = {} /\ recv = NoRecv /\ jobs = {}
-         /\ mode = "up" /\ todo = {} /\ nextId = 1 /\ tam = NoTam /\ fents = {} /\ ncrash = 0
+         /\ mode = "up" /\ todo = {} /\ nextId = 1 /\ tam = NoTam /\ fents = {} /\ ncrash = 0 /\ nfault = 0
 
 Serving == mode = "up" /\ tam = NoTam
 
@@ -151,21 +166,21 @@ AfterIndex == IF Has("IndexBeforeMeta") THEN "meta" ELSE "ack"
 RecvStart(p) ==
   /\ Serving /\ recv = NoRecv
   /\ IF p \in Dom(index)
-       THEN acked' = acked \cup {p} /\ UNCHANGED <<recv, fents, ncrash>>          \* "duplicated blob received"
+       THEN acked' = acked \cup {p} /\ UNCHANGED <<recv, fents, ncrash, nfault>>          \* "duplicated blob received"
        ELSE /\ recv' = [p |-> p, pc |-> "blob", c |-> 0]
             /\ acked' = acked
             /\ IF p \in Forge      \* the attacker crafts its content now: "victim v is stored as the ciphertext of w"
                  THEN \E v \in Dom(index), w \in Dom(index) :
                          v # w /\ fents' = {x \in fents : x.f # p} \cup {[f |-> p, p |-> v, c |-> Lookup(index, w)]}
                  ELSE fents' = fents
-  /\ UNCHANGED <<enc, metas, heap, index, jobs, mode, todo, nextId, tam, ncrash>>
+  /\ UNCHANGED <<enc, metas, heap, index, jobs, mode, todo, nextId, tam, ncrash, nfault>>
 
 RecvBlob ==
   /\ mode = "up" /\ recv.pc = "blob" /\ nextId <= MaxId
   /\ enc' = enc \cup {[id |-> nextId, p |-> recv.p]}
   /\ recv' = [recv EXCEPT !.pc = AfterBlob, !.c = nextId]
   /\ nextId' = nextId + 1
-  /\ UNCHANGED <<metas, heap, index, acked, jobs, mode, todo, tam, fents, ncrash>>
+  /\ UNCHANGED <<metas, heap, index, acked, jobs, mode, todo, tam, fents, ncrash, nfault>>
 
 RecvMeta ==
   /\ mode = "up" /\ recv.pc = "meta" /\ nextId <= MaxId
@@ -173,19 +188,19 @@ RecvMeta ==
   /\ Record(heap, jobs, HeapEl(nextId, {recv.p}, 1))
   /\ recv' = [recv EXCEPT !.pc = AfterMeta]
   /\ nextId' = nextId + 1
-  /\ UNCHANGED <<enc, index, acked, mode, todo, tam, fents, ncrash>>
+  /\ UNCHANGED <<enc, index, acked, mode, todo, tam, fents, ncrash, nfault>>
 
 RecvIndex ==
   /\ mode = "up" /\ recv.pc = "index"
   /\ index' = Override(index, {[p |-> recv.p, c |-> recv.c]})
   /\ recv' = [recv EXCEPT !.pc = AfterIndex]
-  /\ UNCHANGED <<enc, metas, heap, acked, jobs, mode, todo, nextId, tam, fents, ncrash>>
+  /\ UNCHANGED <<enc, metas, heap, acked, jobs, mode, todo, nextId, tam, fents, ncrash, nfault>>
 
 RecvAck ==
   /\ mode = "up" /\ recv.pc = "ack"
   /\ acked' = acked \cup {recv.p}
   /\ recv' = NoRecv
-  /\ UNCHANGED <<enc, metas, heap, index, jobs, mode, todo, nextId, tam, fents, ncrash>>
+  /\ UNCHANGED <<enc, metas, heap, index, jobs, mode, todo, nextId, tam, fents, ncrash, nfault>>
 
 (* k complete receive cycles ps[1..k] (new blobs, nothing of the receive side interleaved) as ONE step: exactly
    what k x (RecvStart, RecvBlob, RecvMeta, RecvIndex, RecvAck) do, jobs not moving meanwhile.  A macro step for
@@ -210,7 +225,7 @@ RecvBatch(ps, k) ==
            heap' = o.heap /\ jobs' = o.jobs
   /\ acked' = acked \cup {ps[i] : i \in 1..k}
   /\ nextId' = nextId + 2 * k
-  /\ UNCHANGED <<recv, mode, todo, tam, fents, ncrash>>
+  /\ UNCHANGED <<recv, mode, todo, tam, fents, ncrash, nfault>>
 
 (* ------------------------------------------------------------------ makePackedMetaBlob *)
 First(c) == IF Has("DeleteBeforeUpload") THEN (IF c = "a" THEN "delete" ELSE "upload")
@@ -223,12 +238,13 @@ Advance(js, j) == IF j.second THEN js \ {j}
 JobGetOk(j) ==
   /\ Running /\ j \in jobs /\ j.pc = "get" /\ SubsetEq(j.plains, Dom(index))
   /\ jobs' = (jobs \ {j}) \cup {[j EXCEPT !.pc = First("a")]}
-  /\ UNCHANGED <<enc, metas, heap, index, acked, recv, mode, todo, nextId, tam, fents, ncrash>>
+  /\ UNCHANGED <<enc, metas, heap, index, acked, recv, mode, todo, nextId, tam, fents, ncrash, nfault>>
 
 JobAbandon(j) ==
+  /\ ~Has("CompactionSkipsFailedEntry")
   /\ Running /\ j \in jobs /\ j.pc = "get" /\ ~SubsetEq(j.plains, Dom(index))
   /\ jobs' = jobs \ {j}
-  /\ UNCHANGED <<enc, metas, heap, index, acked, recv, mode, todo, nextId, tam, fents, ncrash>>
+  /\ UNCHANGED <<enc, metas, heap, index, acked, recv, mode, todo, nextId, tam, fents, ncrash, nfault>>
 
 (* pcs: the job states from which the upload may be taken (the trace spec folds the silent index reads in) *)
 JobUploadFrom(j, pcs) ==
@@ -239,14 +255,86 @@ JobUploadFrom(j, pcs) ==
      /\ IF j.n < Full THEN Record(heap, rest, HeapEl(nextId, j.plains, j.n))
                       ELSE heap' = heap /\ jobs' = rest
   /\ nextId' = nextId + 1
-  /\ UNCHANGED <<enc, index, acked, recv, mode, todo, tam, fents, ncrash>>
+  /\ UNCHANGED <<enc, index, acked, recv, mode, todo, tam, fents, ncrash, nfault>>
 JobUpload(j) == JobUploadFrom(j, {"upload"})
 
 JobDelete(j) ==
   /\ Running /\ j \in jobs /\ j.pc = "delete"
   /\ metas' = {m \in metas : m.id \notin j.del}
   /\ jobs' = Advance(jobs, j)
+  /\ UNCHANGED <<enc, heap, index, acked, recv, mode, todo, nextId, tam, fents, ncrash, nfault>>
+
+(* ------------------------------------------------------------------ transient lower-layer failures *)
+Fault == nfault < MaxFault /\ nfault' = nfault + 1
+Skips == Has("CompactionSkipsFailedEntry")
+
+(* the duplicate check fails: whatever the index holds, the blob is received as a new one *)
+RecvStartErr(p) ==
+  /\ Serving /\ recv = NoRecv /\ Fault /\ p \notin Forge
+  /\ recv' = [p |-> p, pc |-> "blob", c |-> 0]
+  /\ UNCHANGED <<enc, metas, heap, index, acked, jobs, mode, todo, nextId, tam, fents, ncrash>>
+
+RecvBlobFail(eff) ==
+  /\ mode = "up" /\ recv.pc = "blob" /\ Fault
+  /\ (IF eff THEN nextId <= MaxId /\ enc' = enc \cup {[id |-> nextId, p |-> recv.p]} /\ nextId' = nextId + 1
+             ELSE UNCHANGED <<enc, nextId>>)
+  /\ recv' = NoRecv
+  /\ UNCHANGED <<metas, heap, index, acked, jobs, mode, todo, tam, fents, ncrash>>
+
+(* ReceiveBlob returns before recordMeta: a meta blob that was stored all the same is not tracked *)
+RecvMetaFail(eff) ==
+  /\ mode = "up" /\ recv.pc = "meta" /\ Fault
+  /\ (IF eff THEN /\ nextId <= MaxId /\ nextId' = nextId + 1
+                  /\ metas' = metas \cup {[id |-> nextId, ents |-> {[p |-> recv.p, c |-> recv.c]}, n |-> 1]}
+             ELSE UNCHANGED <<metas, nextId>>)
+  /\ recv' = NoRecv
+  /\ UNCHANGED <<enc, heap, index, acked, jobs, mode, todo, tam, fents, ncrash>>
+
+RecvIndexFail(eff) ==
+  /\ mode = "up" /\ recv.pc = "index" /\ Fault
+  /\ index' = IF eff THEN Override(index, {[p |-> recv.p, c |-> recv.c]}) ELSE index
+  /\ recv' = NoRecv
+  /\ UNCHANGED <<enc, metas, heap, acked, jobs, mode, todo, nextId, tam, fents, ncrash>>
+
+(* an index read of the job fails for plain p: the job gives up (everything stays); with the deviation it leaves
+   the line out and goes on *)
+JobGetFail(j, p) ==
+  /\ Running /\ j \in jobs /\ j.pc = "get" /\ p \in j.plains /\ Fault
+  /\ jobs' = IF Skips THEN (jobs \ {j}) \cup {[j EXCEPT !.plains = j.plains \ {p}, !.n = j.n - 1]}
+                       ELSE jobs \ {j}
+  /\ UNCHANGED <<enc, metas, heap, index, acked, recv, mode, todo, nextId, tam, fents, ncrash>>
+
+(* the deviation, for a row that is not there (yet): left out as well *)
+JobSkipMissing(j) ==
+  /\ Skips /\ Running /\ j \in jobs /\ j.pc = "get" /\ ~SubsetEq(j.plains, Dom(index))
+  /\ LET P == j.plains \cap Dom(index) IN
+     jobs' = (jobs \ {j}) \cup {[j EXCEPT !.plains = P, !.n = j.n - Cardinality(j.plains \ P)]}
+  /\ UNCHANGED <<enc, metas, heap, index, acked, recv, mode, todo, nextId, tam, fents, ncrash, nfault>>
+
+JobUploadFailFrom(j, pcs, eff) ==
+  /\ Running /\ j \in jobs /\ j.pc \in pcs /\ SubsetEq(j.plains, Dom(index)) /\ Fault
+  /\ (IF eff THEN /\ nextId <= MaxId /\ nextId' = nextId + 1
+                  /\ metas' = metas \cup {[id |-> nextId, ents |-> {e \in index : e.p \in j.plains}, n |-> j.n]}
+             ELSE UNCHANGED <<metas, nextId>>)
+  /\ jobs' = jobs \ {j}
+  /\ UNCHANGED <<enc, heap, index, acked, recv, mode, todo, tam, fents, ncrash>>
+JobUploadFail(j, eff) == JobUploadFailFrom(j, {"upload"}, eff)
+
+(* RemoveBlobs reports an error having removed the meta blobs D \subseteq j.del; the job goes on (it is its last step) *)
+JobDeleteFail(j, D) ==
+  /\ Running /\ j \in jobs /\ j.pc = "delete" /\ D \subseteq j.del /\ Fault
+  /\ metas' = {m \in metas : m.id \notin D}
+  /\ jobs' = Advance(jobs, j)
   /\ UNCHANGED <<enc, heap, index, acked, recv, mode, todo, nextId, tam, fents, ncrash>>
+
+FaultStep == \/ \E p \in Plain : RecvStartErr(p)
+             \/ \E eff \in BOOLEAN : RecvBlobFail(eff)
+             \/ \E eff \in BOOLEAN : RecvMetaFail(eff)
+             \/ \E eff \in BOOLEAN : RecvIndexFail(eff)
+             \/ \E j \in jobs, p \in Plain : JobGetFail(j, p)
+             \/ \E j \in jobs : JobSkipMissing(j)
+             \/ \E j \in jobs, eff \in BOOLEAN : JobUploadFail(j, eff)
+             \/ \E j \in jobs, D \in SUBSET Ids(metas) : JobDeleteFail(j, D)
 
 (* ------------------------------------------------------------------ crash, start-up *)
 Crash ==
@@ -254,24 +342,24 @@ Crash ==
   /\ mode' = "down" /\ heap' = {} /\ jobs' = {} /\ recv' = NoRecv /\ todo' = {}
   /\ index' \in {index, {}}
   /\ ncrash' = ncrash + 1
-  /\ UNCHANGED <<enc, metas, acked, nextId, tam, fents>>
+  /\ UNCHANGED <<enc, metas, acked, nextId, tam, fents, nfault>>
 
 RestartBegin ==
   /\ mode = "down" /\ tam = NoTam
   /\ mode' = "scan" /\ todo' = metas
-  /\ UNCHANGED <<enc, metas, heap, index, acked, recv, jobs, nextId, tam, fents, ncrash>>
+  /\ UNCHANGED <<enc, metas, heap, index, acked, recv, jobs, nextId, tam, fents, ncrash, nfault>>
 
 ScanOne(m) ==
   /\ mode = "scan" /\ m \in todo
   /\ Record(heap, jobs, HeapEl(m.id, PlainsOf(m), m.n))
   /\ index' = Override(index, m.ents)
   /\ todo' = todo \ {m}
-  /\ UNCHANGED <<enc, metas, acked, recv, mode, nextId, tam, fents, ncrash>>
+  /\ UNCHANGED <<enc, metas, acked, recv, mode, nextId, tam, fents, ncrash, nfault>>
 
 RestartEnd ==
   /\ mode = "scan" /\ todo = {}
   /\ mode' = "up"
-  /\ UNCHANGED <<enc, metas, heap, index, acked, recv, jobs, todo, nextId, tam, fents, ncrash>>
+  /\ UNCHANGED <<enc, metas, heap, index, acked, recv, jobs, todo, nextId, tam, fents, ncrash, nfault>>
 
 (* ------------------------------------------------------------------ tampering *)
 Quiescent == mode = "up" /\ recv = NoRecv /\ jobs = {}
@@ -288,7 +376,7 @@ Tamper(target, kind, a, b) ==
   /\ tam' = [target |-> target, kind |-> kind, a |-> a, b |-> b]
   /\ mode' = "down" /\ heap' = {}
   /\ index' \in {index, {}}          \* the fresh instance runs with the old local index or with a wiped one
-  /\ UNCHANGED <<enc, metas, acked, recv, jobs, todo, nextId, fents, ncrash>>
+  /\ UNCHANGED <<enc, metas, acked, recv, jobs, todo, nextId, fents, ncrash, nfault>>
 
 PlainOfCipher(c) == (CHOOSE x \in enc : x.id = c).p
 EntsOfMeta(i) == (CHOOSE m \in metas : m.id = i).ents
@@ -324,12 +412,12 @@ TamperedRestart ==
                              /\ Functional(ix)
                              /\ Dom(ix) = Dom(ScannedEnts \cup index)
                              /\ \A e \in ix : e.p \in Dom(ScannedEnts) => e \in ScannedEnts}
-  /\ UNCHANGED <<enc, metas, heap, acked, recv, jobs, todo, nextId, tam, fents, ncrash>>
+  /\ UNCHANGED <<enc, metas, heap, acked, recv, jobs, todo, nextId, tam, fents, ncrash, nfault>>
 
 Restore ==
   /\ tam # NoTam /\ mode \in {"up", "failed"}
   /\ tam' = NoTam /\ mode' = "down" /\ index' = {}
-  /\ UNCHANGED <<enc, metas, heap, acked, recv, jobs, todo, nextId, fents, ncrash>>
+  /\ UNCHANGED <<enc, metas, heap, acked, recv, jobs, todo, nextId, fents, ncrash, nfault>>
 
 (* Fetch(p) as the code does it: index row, fetch the ciphertext, compare its digest with the row, decrypt *)
 FetchOutcome(p) ==
@@ -352,6 +440,7 @@ ENext == \/ \E p \in Plain : RecvStart(p)
          \/ \E j \in jobs : JobAbandon(j)
          \/ \E j \in jobs : JobUpload(j)
          \/ \E j \in jobs : JobDelete(j)
+         \/ FaultStep
          \/ Crash \/ RestartBegin \/ RestartEnd
          \/ \E m \in todo : ScanOne(m)
          \/ \E t \in TamperTargets, k \in TamperKinds, a \in 1..MaxId, b \in 0..MaxId : Tamper(t, k, a, b)
@@ -370,14 +459,18 @@ IndexRight == Serving =>
   /\ Functional(index)
   /\ acked \subseteq Dom(index)
   /\ \A e \in index : [id |-> e.c, p |-> e.p] \in enc
-IndexBackedByMeta == Serving => index \subseteq AllEnts(metas)
+(* (a transient failure can leave two ciphertexts of one plain behind - a failed duplicate check, a failed index.Set
+   and the client's retry: the index row and the meta entries may then name different ciphertexts of the same plain) *)
+IndexBackedByMeta == Serving => IF nfault = 0 THEN index \subseteq AllEnts(metas)
+                                              ELSE \A e \in index : ListedIn(metas, enc, e.p)
 
 (* Every fetch returns exactly the original plaintext or fails - whatever was done to the wrapped stores. *)
 FetchSound == \A p \in Plain : FetchOutcome(p) \in SoundOutcomes
 AckedFetchable == Serving => \A p \in acked : FetchOutcome(p) = "orig"
 
 (* a meta blob disappears only when every entry it holds is held by a meta blob that stays *)
-DeleteOnlyCovered == [][\A m \in metas \ metas' : m.ents \subseteq AllEnts(metas')]_evars
+DeleteOnlyCovered == [][\A m \in metas \ metas' : \A e \in m.ents :
+                            e \in AllEnts(metas') \/ (nfault' > 0 /\ ListedIn(metas', enc', e.p))]_evars
 
 (* Reachability witnesses for the Full mechanism: with Witness = <name> the sensitivity run MUST violate
    WitnessStep / WitnessState (the branch of recordMeta / makePackedMetaBlob it names is explored by the model
